@@ -41,9 +41,10 @@ Fail(key) == IF SubSeq(key, 1, 3) \in Focus
 
 Kind(o) == IF o \in DOMAIN kinds THEN kinds[o] ELSE "unknown"
 
-IdleTimer == [st |-> "idle", d |-> 0, t0 |-> 0, why |-> "new",
-              att |-> FALSE, attd |-> 0, attts |-> 0, attrep |-> 0, infire |-> FALSE,
-              sn |-> 0, attsn |-> 0]   \* sn: which Schedule* call's closure is the accepted one (e.h numbers the calls)
+\* open: the Schedule* calls on this timer that have begun and not returned yet, innermost first (a zero-delay
+\* ScheduleOnce runs its callback inside the call, and that callback may schedule again); sn: which call's closure
+\* is the accepted one (e.h numbers the calls of a scenario)
+IdleTimer == [st |-> "idle", d |-> 0, t0 |-> 0, why |-> "new", infire |-> 0, sn |-> 0, open |-> <<>>]   \* infire: callbacks of this timer on the stack
 
 ObsReset(e) ==
   /\ kinds' = e.kinds /\ cls' = e.cls /\ lim' = e.lim /\ base' = e.dispatched
@@ -142,29 +143,40 @@ ObsSample(e) ==
 
 \* ---- timers (C04) ----
 ObsTSchedB(e) ==
-  /\ tm' = [tm EXCEPT ![e.t].att = TRUE, ![e.t].attd = e.d, ![e.t].attts = e.ts, ![e.t].attrep = e.n, ![e.t].attsn = e.h]
+  /\ tm' = [tm EXCEPT ![e.t].open = <<[d |-> e.d, ts |-> e.ts, rep |-> e.n, sn |-> e.h, fired |-> FALSE]>> \o @]
   /\ UNCHANGED <<kinds, cls, lim, base, ost, ops, csnap, posted, ranp, anomaly, rnext, bad>>
 
 ObsTSchedE(e) ==
   LET r == tm[e.t] IN
+  IF r.open = <<>> THEN Fail("har/tsched-nesting")
+  ELSE LET a == Head(r.open)
+           r1 == [r EXCEPT !.open = Tail(@)] IN
   IF e.err # "nil" THEN
-       /\ tm' = [tm EXCEPT ![e.t].att = FALSE]
+       /\ tm' = [tm EXCEPT ![e.t] = r1]
+       /\ UNCHANGED <<kinds, cls, lim, base, ost, ops, csnap, posted, ranp, anomaly, rnext, bad>>
+  ELSE IF a.d <= 0 /\ a.fired THEN
+       \* the callback ran inside the call (whatever it did to the timer), this call leaves nothing due
+       /\ tm' = [tm EXCEPT ![e.t] = r1]
        /\ UNCHANGED <<kinds, cls, lim, base, ost, ops, csnap, posted, ranp, anomaly, rnext, bad>>
   ELSE IF r.st = "closed" THEN Fail("C04/revived")
-  ELSE IF r.st \in {"once", "rep"} /\ ~r.infire THEN Fail("C04/double-schedule")
+  ELSE IF r.st \in {"once", "rep"} /\ r.infire = 0 THEN Fail("C04/double-schedule")
   ELSE /\ tm' = [tm EXCEPT ![e.t] =
-                   IF r.attd <= 0
-                     THEN [r EXCEPT !.att = FALSE]     \* immediate execution, nothing stays due
-                     ELSE [r EXCEPT !.att = FALSE, !.st = IF r.attrep = 1 THEN "rep" ELSE "once",
-                                    !.d = r.attd, !.t0 = r.attts, !.why = "sched", !.sn = r.attsn]]
+                   IF FALSE
+                     THEN r1
+                     \* (a zero-delay schedule whose callback has not run inside the call is due at once)
+                     ELSE [r1 EXCEPT !.st = IF a.rep = 1 THEN "rep" ELSE "once",
+                                     !.d = IF a.d <= 0 THEN 0 ELSE a.d, !.t0 = a.ts, !.why = "sched", !.sn = a.sn]]
        /\ UNCHANGED <<kinds, cls, lim, base, ost, ops, csnap, posted, ranp, anomaly, rnext, bad>>
 
 ObsTFireB(e) ==
   LET r == tm[e.t] IN
-  IF r.att /\ r.attd <= 0 /\ r.st \notin {"once", "rep"} THEN   \* ScheduleOnce(<= 0): runs at once
-     IF e.h # r.attsn THEN Fail("C04/wrong-callback/immediate") ELSE
+  IF r.open # <<>> /\ Head(r.open).sn = e.h /\ Head(r.open).d <= 0 /\ ~Head(r.open).fired
+       /\ (r.st \notin {"once", "rep"} \/ r.infire > 0) THEN   \* ScheduleOnce(<= 0): the callback runs inside the call
+                                                          \* (a timer is free again while its own callback runs)
+       /\ tm' = [tm EXCEPT ![e.t].open = <<[Head(r.open) EXCEPT !.fired = TRUE]>> \o Tail(r.open),
+                          ![e.t].infire = @ + 1]
        /\ ranp' = IF ranp = "" THEN "" ELSE "y"
-       /\ UNCHANGED <<kinds, cls, lim, base, ost, ops, csnap, tm, posted, anomaly, rnext, bad>>
+       /\ UNCHANGED <<kinds, cls, lim, base, ost, ops, csnap, posted, anomaly, rnext, bad>>
   ELSE IF r.st = "closed" THEN Fail("C04/after-close")
   ELSE IF r.st = "idle" THEN
        Fail(IF r.why = "fired" THEN "C04/double-fire"
@@ -172,13 +184,13 @@ ObsTFireB(e) ==
   ELSE IF e.ts - r.t0 < r.d THEN Fail("C04/early/" \o r.st)
   ELSE IF e.h # r.sn THEN Fail("C04/wrong-callback/" \o r.st)   \* the callback of another (rejected, cancelled, older) Schedule* call
   ELSE /\ tm' = [tm EXCEPT ![e.t] =
-                   IF r.st = "once" THEN [r EXCEPT !.st = "idle", !.why = "fired", !.infire = TRUE]
-                                    ELSE [r EXCEPT !.t0 = e.ts, !.infire = TRUE]]
+                   IF r.st = "once" THEN [r EXCEPT !.st = "idle", !.why = "fired", !.infire = @ + 1]
+                                    ELSE [r EXCEPT !.t0 = e.ts, !.infire = @ + 1]]
        /\ ranp' = IF ranp = "" THEN "" ELSE "y"
        /\ UNCHANGED <<kinds, cls, lim, base, ost, ops, csnap, posted, anomaly, rnext, bad>>
 
 ObsTFireE(e) ==
-  /\ tm' = [tm EXCEPT ![e.t].infire = FALSE]
+  /\ tm' = [tm EXCEPT ![e.t].infire = IF @ > 0 THEN @ - 1 ELSE 0]
   /\ UNCHANGED <<kinds, cls, lim, base, ost, ops, csnap, posted, ranp, anomaly, rnext, bad>>
 
 ObsTCancelE(e) ==
